@@ -395,9 +395,8 @@ def main():
     todo = args or ALL + ["all"]
     bad = 0
     for t in todo:
-        # `all` = every rewrite that leaves each binding's own shape alone; `temps` reshapes bindings and is run on its own
-        # (renaming a local AND reshaping what it is bound from at once removes both handles a role has: anchors are lost)
-        which = (set(ALL) - {"temps"}) if t == "all" else set(t.split("+"))
+        # `all` = every rewrite at once (the two format directions undo each other: `all` takes toformat; combine with + for others)
+        which = (set(ALL) | {"toformat"}) if t == "all" else set(t.split("+"))
         dst = f"/dev/shm/refuzz_{t}"
         shutil.rmtree(dst, ignore_errors=True)
         os.makedirs(dst)
